@@ -95,6 +95,7 @@ func (s *sharedStore) emit(k string, f map[string]any) {
 }
 
 type concOps struct {
+	rs     *runState
 	s      *sharedStore
 	c      int
 	srv    *sumdb.Server
@@ -103,7 +104,7 @@ type concOps struct {
 }
 
 func (o *concOps) ReadRemote(path string) ([]byte, error) {
-	privateOp("ReadRemote", path)
+	o.rs.privateOp("ReadRemote", path)
 	rr := httptest.NewRecorder()
 	req := httptest.NewRequest("GET", "http://sum.example"+path, nil)
 	o.srv.ServeHTTP(rr, req)
@@ -125,7 +126,7 @@ func (o *concOps) ReadRemote(path string) ([]byte, error) {
 }
 
 func (o *concOps) ReadConfig(file string) ([]byte, error) {
-	privateOp("ReadConfig", file)
+	o.rs.privateOp("ReadConfig", file)
 	o.s.mu.Lock()
 	defer o.s.mu.Unlock()
 	if file == "key" {
@@ -138,7 +139,7 @@ func (o *concOps) ReadConfig(file string) ([]byte, error) {
 }
 
 func (o *concOps) WriteConfig(file string, old, new []byte) error {
-	privateOp("WriteConfig", file)
+	o.rs.privateOp("WriteConfig", file)
 	o.s.mu.Lock()
 	defer o.s.mu.Unlock()
 	if file != o.s.name+"/latest" {
@@ -158,7 +159,7 @@ func (o *concOps) WriteConfig(file string, old, new []byte) error {
 }
 
 func (o *concOps) ReadCache(file string) ([]byte, error) {
-	privateOp("ReadCache", file)
+	o.rs.privateOp("ReadCache", file)
 	o.s.mu.Lock()
 	defer o.s.mu.Unlock()
 	if k, ok := o.keyOf(file); ok {
@@ -172,7 +173,7 @@ func (o *concOps) ReadCache(file string) ([]byte, error) {
 }
 
 func (o *concOps) WriteCache(file string, data []byte) {
-	privateOp("WriteCache", file)
+	o.rs.privateOp("WriteCache", file)
 	o.s.mu.Lock()
 	defer o.s.mu.Unlock()
 	o.s.disk[file] = append([]byte(nil), data...)
@@ -224,9 +225,10 @@ func execConcRun(in runIn, ev func(k string, f any)) []core.Violation {
 		}
 		return -1, true
 	}
+	rs := newRunState()
 	clients := make([]*sumdb.Client, nclients)
 	for c := range clients {
-		cl := sumdb.NewClient(&concOps{s: store, c: c, srv: srv, keyOf: keyOf})
+		cl := sumdb.NewClient(&concOps{rs: rs, s: store, c: c, srv: srv, keyOf: keyOf})
 		cl.SetTileHeight(height)
 		cl.SetGONOSUMDB("private.example,*.corp.example")
 		clients[c] = cl
@@ -243,7 +245,6 @@ func execConcRun(in runIn, ev func(k string, f any)) []core.Violation {
 	var wg sync.WaitGroup
 	var vmu sync.Mutex
 	var vs []core.Violation
-	takePrivateFound()
 	start := make(chan struct{})
 	for g, j := range jobs {
 		wg.Add(1)
@@ -314,7 +315,7 @@ func execConcRun(in runIn, ev func(k string, f any)) []core.Violation {
 	}
 	vs = append(vs, store.viol...)
 	store.mu.Unlock()
-	for _, f := range takePrivateFound() {
+	for _, f := range rs.takePrivate() {
 		vs = append(vs, core.Violation{Sig: "c14:skip-not-silent", What: "external operation for a path matching the private pattern list: " + f})
 	}
 	for i := range vs {
